@@ -114,10 +114,16 @@ func runReadHeaderKind(kind string, data []byte) decRes {
 	panic(kind)
 }
 
-func runNextFrame(data []byte, chunk int) decRes {
+func runNextFrame(data []byte, chunk int) decRes { return runNextFrameState(data, chunk, 0) }
+
+// readerStates: with the RFC header check switched off the streaming reader decodes every
+// header whatever side it is told to be on; the side must not change what it decodes.
+var readerStates = []ws.State{ws.StateServerSide, ws.StateClientSide, ws.StateServerSide | ws.StateExtended}
+
+func runNextFrameState(data []byte, chunk int, st ws.State) decRes {
 	s := env.NewSrc(data)
 	s.Policy = env.FixedChunk(chunk)
-	r := &wsutil.Reader{Source: s, SkipHeaderCheck: true}
+	r := &wsutil.Reader{Source: s, State: st, SkipHeaderCheck: true}
 	h, err := r.NextFrame()
 	return decRes{h, err, s.Off, s.MaxEnd, s.Reads}
 }
@@ -215,6 +221,12 @@ func main() {
 							b := runNextFrame(data, 0)
 							if (a.err == nil) != (b.err == nil) {
 								return explore.Failf("decoders-disagree-verdict", "ReadHeader err=%v NextFrame err=%v", a.err, b.err)
+							}
+							for _, st := range readerStates {
+								k := runNextFrameState(data, 0, st)
+								if (k.err == nil) != (b.err == nil) || (b.err == nil && (k.h != b.h || k.used != b.used || k.maxEnd > b.used)) {
+									return explore.Failf("NextFrame-depends-on-side", "state %08b: %+v/%d (reads reach %d) err=%v; state 0: %+v/%d err=%v", st, k.h, k.used, k.maxEnd, k.err, b.h, b.used, b.err)
+								}
 							}
 							for _, kind := range kinds {
 								k := runReadHeaderKind(kind, data)
